@@ -1271,6 +1271,31 @@ func TestDriver(t *testing.T) {
 	defer cancel()
 	w := newWorld(t, rep, ctx)
 
+	// replay of one recorded violation (bin/check C12 --replay <file>)
+	if p := os.Getenv("VERIF_REPLAY_CASE"); p != "" {
+		var rp struct {
+			Case   Case   `json:"case"`
+			Family string `json:"family"`
+			JSON   string `json:"json"`
+		}
+		if err := vh.ReadJSON(p, &rp); err != nil {
+			t.Fatalf("replay: %v", err)
+		}
+		if rp.JSON != "" {
+			rep.Inconclusivef("replay of a mutated JSON form is not supported; the JSON text is in the replay file")
+			return
+		}
+		off := 0
+		if rp.Family == "bigworld" {
+			off = 2
+		}
+		r := w.run(rp.Case, off)
+		w.judge(rp.Case, r, "model")
+		rep.Set("replay_outcome", r.outcome)
+		rep.Set("replay_truth", r.truth)
+		rep.Set("replay_detail", firstLine(r.detail))
+		return
+	}
 	var cases []Case
 	if p := os.Getenv("VERIF_CASES"); p != "" {
 		if err := vh.ReadJSON(p, &cases); err != nil {
